@@ -413,8 +413,11 @@ func (g *vGenSess) randomAction(gen *int, addrA, addrB, net0 int) {
 		if g.hasB && r.chance(1, 2) {
 			w, la, src = "B", addrB, addrA
 		}
-		if r.chance(1, 3) {
-			src = 16 * (25 + r.intn(4))
+		switch r.intn(4) {
+		case 0:
+			src = 16 * (25 + r.intn(4)) // unknown host
+		case 1:
+			src += 1 + r.intn(3) // the known peer's IP, another port (same 256-port block)
 		}
 		sl := 0
 		if r.chance(1, 8) {
